@@ -278,10 +278,16 @@ const fn encode_segment_node(size: u32, next: u32) -> u64 {
 /// let alignment = mem::align_of::<T>() as u32;
 /// (current_offset + alignment - 1) & !(alignment - 1)
 /// ```
+///
+/// - If the aligned offset does not fit in a `u32`, `u32::MAX` is returned: no value of a
+///   type with an alignment larger than `1` can start there, so callers run out of space instead of wrapping around.
 #[inline]
 pub const fn align_offset<T>(current_offset: u32) -> u32 {
   let alignment = core::mem::align_of::<T>() as u32;
-  (current_offset + alignment - 1) & !(alignment - 1)
+  match current_offset.checked_add(alignment - 1) {
+    Some(offset) => offset & !(alignment - 1),
+    None => u32::MAX,
+  }
 }
 
 #[cfg(feature = "std")]
@@ -398,7 +404,10 @@ macro_rules! impl_bytes_mut_utils {
 
       let align_offset = crate::align_offset::<T>(self.allocated.ptr_offset + self.len as u32);
 
-      if align_offset > self.allocated.ptr_offset + self.allocated.ptr_size {
+      // `align_offset` saturates (to a misaligned `u32::MAX`) when the aligned offset does not fit in a `u32`.
+      if align_offset > self.allocated.ptr_offset + self.allocated.ptr_size
+        || align_offset & (mem::align_of::<T>() as u32 - 1) != 0
+      {
         return Err(InsufficientBuffer::with_information((align_offset as u64 - self.len as u64 - self.allocated.ptr_offset as u64), (self.allocated.ptr_size as u64 - self.len as u64)));
       }
 
